@@ -100,7 +100,7 @@ class StackWorld(WsWorld):
     """Link actions, timers and drain come from WsWorld; eps are End objects."""
 
     def build_stack(self, kind, client_session_factory, server_session_factory, client_sers, server_sers,
-                    client_opts=None, server_opts=None):
+                    client_opts=None, server_opts=None, server_protocol_wrap=None):
         m, CF, SF = transport_factories(kind)
         kw = self.fw.factory_kw(self.reactor)
         if kind == "ws":
@@ -116,6 +116,8 @@ class StackWorld(WsWorld):
                     cfac.setProtocolOptions(**client_opts)
                 if server_opts:
                     sfac.setProtocolOptions(**server_opts)
+        if server_protocol_wrap is not None:
+            sfac.protocol = server_protocol_wrap(sfac.protocol)
         self.cfac, self.sfac = cfac, sfac
         tc, ts, pc, ps, c2s, s2c = self.fw.connect_pair(self.run, self.reactor, cfac, sfac)
         c = End(self, "C", False)
